@@ -63,3 +63,12 @@ def cfg(geom="NEARSQUARE", pipe="SINGLEUTUBE", months=24, loads=None, flow=("BOR
     for k, v in over.items():
         c[k] = v
     return c
+
+
+def steep_cfg(scale=2100.0, seed=3, flow=("BOREHOLE", 0.3)):
+    """a design whose excess is steep in the height (about 0.7 K per metre): one short borehole, cold ground, a small cooling load —
+    an error of a few millimetres in the returned height shows as more than the 1e-3 K sizing tolerance"""
+    c = cfg("NEARSQUARE", months=12, loads={"kind": "cooling", "scale": scale, "seed": seed}, flow=flow,
+            geom_over={"length": 4, "b": 5.0, "min_height": 15.0, "max_height": 60.0})
+    c["soil"] = dict(c["soil"], undisturbed_temp=10.0)
+    return c
